@@ -69,7 +69,7 @@ def runFuzz (c : Case) : Res :=
     -- `in.csv`; securities are S0..S3/ZZZ; messages about the options (-b, --date-fmt) are `argerr`.
     let msg := String.intercalate " " (impl.drop 2)
     let has := fun (t : String) => (msg.splitOn t).length > 1
-    if has "in.csv" || has "row " || has " S0" || has " S1" || has " S2" || has " S3" || has "ZZZ" || msg.isEmpty then
+    if has "in.csv" || has "row " || has "S0" || has "S1" || has "S2" || has "S3" || has "ZZZ" || msg.isEmpty then
       { verdict := "ok", tags := tags }
     else
       { verdict := "ORACLE", tags := "of=C05" :: tags,
